@@ -124,12 +124,177 @@ macro_rules! with_kind {
                 type $T = ross_protocol::event::relay::RelaySetValueEvent;
                 $body
             }
-            _ => {
+            15 => {
                 type $T = ross_protocol::event::gateway::GatewayDiscoverEvent;
+                $body
+            }
+            16 => {
+                type $T = $crate::events::AppNak;
+                $body
+            }
+            17 => {
+                type $T = $crate::events::AppAny;
+                $body
+            }
+            _ => {
+                type $T = $crate::events::AppBig;
                 $body
             }
         }
     };
+}
+
+// ---- application-defined reply kinds -------------------------------------------------
+// The exchange API is generic over any `ConvertPacket` type, not only the library's sixteen
+// event kinds. Three harness-defined kinds widen "decodes as the requested event kind":
+// one that accepts only *error* packets, a zero-sized one that accepts every packet, and one
+// whose value is large (256 bytes).
+
+pub const N_APP_KINDS: u32 = 3;
+pub const KIND_APP_NAK: u32 = 16;
+pub const KIND_APP_ANY: u32 = 17;
+pub const KIND_APP_BIG: u32 = 18;
+
+#[derive(Debug, PartialEq)]
+pub struct AppNak {
+    pub code: u8,
+}
+
+impl ConvertPacket<AppNak> for AppNak {
+    fn try_from_packet(p: &Packet) -> Result<AppNak, ross_protocol::convert_packet::ConvertPacketError> {
+        use ross_protocol::convert_packet::ConvertPacketError;
+        if !p.is_error {
+            return Err(ConvertPacketError::WrongType);
+        }
+        if p.data.len() != 2 {
+            return Err(ConvertPacketError::WrongSize);
+        }
+        if p.data[0] != 0xee {
+            return Err(ConvertPacketError::WrongType);
+        }
+        Ok(AppNak { code: p.data[1] })
+    }
+    fn to_packet(&self) -> Packet {
+        Packet {
+            is_error: true,
+            device_address: 0xffff,
+            data: vec![0xee, self.code],
+        }
+    }
+}
+
+#[derive(Debug, PartialEq)]
+pub struct AppAny;
+
+impl ConvertPacket<AppAny> for AppAny {
+    fn try_from_packet(_: &Packet) -> Result<AppAny, ross_protocol::convert_packet::ConvertPacketError> {
+        Ok(AppAny)
+    }
+    fn to_packet(&self) -> Packet {
+        Packet {
+            is_error: false,
+            device_address: 0xffff,
+            data: Vec::new(),
+        }
+    }
+}
+
+#[derive(PartialEq)]
+pub struct AppBig {
+    pub tag: u8,
+    pub body: [u8; 255],
+}
+
+impl std::fmt::Debug for AppBig {
+    fn fmt(&self, f: &mut std::fmt::Formatter<'_>) -> std::fmt::Result {
+        let sum: u32 = self.body.iter().enumerate().map(|(i, b)| (i as u32 + 1) * *b as u32).sum();
+        write!(f, "AppBig {{ tag: {}, body_sum: {} }}", self.tag, sum)
+    }
+}
+
+impl ConvertPacket<AppBig> for AppBig {
+    fn try_from_packet(p: &Packet) -> Result<AppBig, ross_protocol::convert_packet::ConvertPacketError> {
+        use ross_protocol::convert_packet::ConvertPacketError;
+        if p.is_error || p.data.len() < 2 || p.data[0] != 0xb1 {
+            return Err(ConvertPacketError::WrongType);
+        }
+        let mut body = [0u8; 255];
+        for (i, b) in p.data[2..].iter().take(255).enumerate() {
+            body[i] = *b;
+        }
+        Ok(AppBig { tag: p.data[1], body })
+    }
+    fn to_packet(&self) -> Packet {
+        Packet {
+            is_error: false,
+            device_address: 0xffff,
+            data: vec![0xb1, self.tag],
+        }
+    }
+}
+
+pub fn kind_name(k: u32) -> &'static str {
+    match k {
+        0..=15 => KIND_NAMES[k as usize],
+        16 => "AppNak (application-defined kind: accepts only error packets)",
+        17 => "AppAny (application-defined kind: zero-sized, accepts every packet)",
+        _ => "AppBig (application-defined kind: 256-byte value)",
+    }
+}
+
+/// A packet that encodes a value of kind `k` (library kinds: the library's own encoder).
+pub fn gen_kind_packet(sim: &Sim, k: u32, to: u16, pad: u8) -> Result<Packet, String> {
+    match k {
+        16 => Ok(Packet {
+            is_error: true,
+            device_address: to,
+            data: vec![0xee, sim.u8_any()],
+        }),
+        17 => {
+            let len = sim.pick(&[3usize, 0, 1, 12]);
+            let mut data = fill_pattern(sim.pick(&[6u32, 3, 1]), sim.draw(1 << 16), len);
+            if len >= 2 {
+                data[0] = 0x7b;
+            }
+            Ok(Packet {
+                is_error: sim.chance(30),
+                device_address: to,
+                data,
+            })
+        }
+        18 => {
+            let len = sim.pick(&[2usize, 9, 40]);
+            let mut data = fill_pattern(3, sim.draw(1 << 16), len);
+            data[0] = 0xb1;
+            Ok(Packet {
+                is_error: false,
+                device_address: to,
+                data,
+            })
+        }
+        _ => gen_event(sim, k, to, SizeCfg { large_pct: 0, huge_pct: 0 }).to_packet(pad),
+    }
+}
+
+/// Reference answer to "does `p` decode as kind `kind`, and to what" (debug text of the value).
+pub fn ref_decode(kind: u32, p: &Packet) -> Result<Option<String>, String> {
+    match kind {
+        16 => Ok(AppNak::try_from_packet(p).ok().map(|e| format!("{:?}", e))),
+        17 => Ok(AppAny::try_from_packet(p).ok().map(|e| format!("{:?}", e))),
+        18 => Ok(AppBig::try_from_packet(p).ok().map(|e| format!("{:?}", e))),
+        _ => AnyEvent::decode(kind, p).map(|o| o.map(|e| inner_debug(&e))),
+    }
+}
+
+/// Debug text of the event inside the AnyEvent wrapper (what `{:?}` of the
+/// library's own event value prints).
+pub fn inner_debug(e: &AnyEvent) -> String {
+    let s = format!("{:?}", e);
+    // "Variant(Inner { .. })" -> "Inner { .. }"
+    match (s.find('('), s.rfind(')')) {
+        (Some(a), Some(b)) if b > a => s[a + 1..b].to_string(),
+        _ => s,
+    }
 }
 
 fn gen_bcm(sim: &Sim) -> BcmValue {
